@@ -20,13 +20,18 @@ CONSTANTS Cpus,            \* available CPUs
           PkgOf,           \* [Cpus -> package id]  (topology for sharing scopes)
           Defs,            \* balloon types: set of [name, mincpus, maxcpus (0 = unlimited), minballoons, maxballoons (0 = unlimited), shareidle]
           Ctrs,            \* containers
-          Reqs             \* possible CPU requests (mCPU)
+          Reqs,            \* possible CPU requests (mCPU)
+          ClassDeviation   \* "none" | "undo_keeps_type_class" (F-C02-3, fixed 2274836)
 
 VARIABLES blns,            \* set of balloons [def, inst, cpus, ctrs]
           free,            \* idle CPUs
-          reqOf            \* container -> mCPU, for assigned containers
+          reqOf,           \* container -> mCPU, for assigned containers
+          cls              \* CPU -> CPU class configured for it (the balloon type's class, "idle" for idle CPUs)
 
-bvars == <<blns, free, reqOf>>
+bvars == <<blns, free, reqOf, cls>>
+\* the classes the CPU controller is told after a step in which `got` CPUs went to a balloon of type dn and `back`
+\* CPUs returned to the idle set
+Reclass(c0, dn, got, back) == [c \in Cpus |-> IF c \in got THEN dn ELSE IF c \in back THEN "idle" ELSE c0[c]]
 
 DefByName(n) == CHOOSE d \in Defs : d.name = n
 ReqMilli(b)  == MapThenSumSet(LAMBDA c : reqOf[c], b.ctrs)
@@ -44,7 +49,7 @@ Topo == {[cpu |-> c, pkg |-> PkgOf[c], die |-> 0, node |-> PkgOf[c], core |-> c,
 
 \* the state as a snapshot in the shape BalloonPreds expects
 Snapshot ==
-    [allowed |-> SetToSeq(Cpus), reserved |-> <<>>, free |-> SetToSeq(free), pincpu |-> TRUE, pinmemory |-> TRUE, idleclass |-> "",
+    [allowed |-> SetToSeq(Cpus), reserved |-> <<>>, free |-> SetToSeq(free), pincpu |-> TRUE, pinmemory |-> TRUE, idleclass |-> "idle",
      defs |-> SetToSeq({[name |-> d.name, mincpus |-> d.mincpus, maxcpus |-> d.maxcpus, minballoons |-> d.minballoons,
                          maxballoons |-> d.maxballoons, shareidle |-> d.shareidle, hideht |-> FALSE, pinmemory |-> TRUE,
                          cpuclass |-> d.name] : d \in Defs}),
@@ -66,7 +71,8 @@ Init ==
     LET todo == {[d |-> d, i |-> i] : d \in Defs, i \in 0 .. 1}
         need == {t \in todo : t.i < t.d.minballoons}
         r == PreCreate(need, {}, Cpus)
-    IN blns = r.blns /\ free = r.free /\ reqOf = <<>>
+    IN /\ blns = r.blns /\ free = r.free /\ reqOf = <<>>
+       /\ cls = [c \in Cpus |-> IF \E b \in r.blns : c \in b.cpus THEN (CHOOSE b \in r.blns : c \in b.cpus).def ELSE "idle"]
 
 \* resize balloon b to n CPUs: take from / return to the idle set (nondeterministic choice of CPUs)
 Resized(b, n, fr) ==
@@ -89,6 +95,20 @@ Allocate(c, dn, r) ==
                     /\ blns' = (blns \ {b}) \cup {[z.b2 EXCEPT !.ctrs = @ \cup {c}]}
                     /\ free' = z.fr2
                     /\ reqOf' = reqOf @@ (c :> r)
+                    /\ cls' = Reclass(cls, dn, z.b2.cpus \ b.cpus, {})
+
+\* a creation that fails AFTER a new balloon was made (newBalloon takes the type's minimum CPUs, inflating to the
+\* request then fails): the undo path deletes the balloon again and its CPUs go back to the idle set.  Nothing
+\* changes -- except, before 2274836, the CPU class of the returned CPUs (F-C02-3).
+AllocateUndone(c, dn, r) ==
+    /\ c \notin DOMAIN reqOf
+    /\ LET d == DefByName(dn)
+           n == Want(d, IF r < 1 THEN 1 ELSE r)
+       IN /\ d.mincpus >= 1 /\ Cardinality(free) >= d.mincpus /\ n > Cardinality(free)
+          /\ (d.maxballoons = 0 \/ Cardinality(InstancesOf(dn)) < d.maxballoons)
+          /\ \E X \in kSubset(d.mincpus, free) :
+                cls' = IF ClassDeviation = "undo_keeps_type_class" THEN Reclass(cls, dn, X, {}) ELSE cls
+    /\ UNCHANGED <<blns, free, reqOf>>
 
 Release(c) ==
     /\ c \in DOMAIN reqOf
@@ -99,14 +119,15 @@ Release(c) ==
        IN /\ reqOf' = [x \in DOMAIN reqOf \ {c} |-> reqOf[x]]
           /\ IF b1.ctrs = {}
              THEN IF Cardinality(InstancesOf(b.def)) > d.minballoons
-                  THEN blns' = blns \ {b} /\ free' = free \cup b.cpus                       \* dynamic balloon: deleted
-                  ELSE \E z \in Resized(b1, Clamp(d, 0), free) : blns' = (blns \ {b}) \cup {z.b2} /\ free' = z.fr2
+                  THEN blns' = blns \ {b} /\ free' = free \cup b.cpus /\ cls' = Reclass(cls, b.def, {}, b.cpus)   \* dynamic balloon: deleted
+                  ELSE \E z \in Resized(b1, Clamp(d, 0), free) :
+                         blns' = (blns \ {b}) \cup {z.b2} /\ free' = z.fr2 /\ cls' = Reclass(cls, b.def, z.b2.cpus \ b.cpus, b.cpus \ z.b2.cpus)
              ELSE LET n == Want(d, IF rq < 1 THEN 1 ELSE rq)
                   IN \E z \in Resized(b1, IF n <= Cardinality(b.cpus) THEN n ELSE Cardinality(b.cpus), free) :
-                        blns' = (blns \ {b}) \cup {z.b2} /\ free' = z.fr2
+                        blns' = (blns \ {b}) \cup {z.b2} /\ free' = z.fr2 /\ cls' = Reclass(cls, b.def, {}, b.cpus \ z.b2.cpus)
 
 Next ==
-    \/ \E c \in Ctrs, d \in Defs, r \in Reqs : Allocate(c, d.name, r)
+    \/ \E c \in Ctrs, d \in Defs, r \in Reqs : Allocate(c, d.name, r) \/ AllocateUndone(c, d.name, r)
     \/ \E c \in Ctrs : Release(c)
 
 Spec == Init /\ [][Next]_bvars
@@ -123,6 +144,9 @@ Inv_SharedIdleCoversScope  == Bad_SharedIdleCoversScope(Snapshot, Topo) = {}
 Inv_MinMaxCpus             == Bad_MinMaxCpus(Snapshot) = {}
 Inv_MinMaxInstances        == Bad_MinMaxInstances(Snapshot) = {}
 Inv_NonEmptyHasCpus        == Bad_NonEmptyHasCpus(Snapshot) = {}
+\* every CPU carries the class of the balloon that owns it, idle CPUs the idle class (what the CPU controller is told)
+ClsRecords == {[class |-> k, cpus |-> SetToSeq({c \in Cpus : cls[c] = k})] : k \in {cls[c] : c \in Cpus}}
+Inv_CpuClass               == Bad_CpuClass(Snapshot, ClsRecords) = {}
 \* C09: with nothing assigned the policy is as right after configuration (up to which CPUs the pre-created balloons hold)
 Inv_Quiescent ==
     (DOMAIN reqOf = {}) =>
